@@ -124,6 +124,7 @@ int main(int argc, char** argv)
   std::unique_ptr<rlbox_sandbox<Sbx>> sb, other;
   std::unique_ptr<Owners> ow;
   long long xtoken = 0; // token of the last owner-level operation, presented to `other` afterwards
+  bool unwind_probe = false; // (only in histories that are not replays of Model walks: the probe moves the token cursor)
   unsigned long long max = 0;
   long next_ptr = 1;
 
@@ -158,8 +159,9 @@ int main(int argc, char** argv)
       continue;
     }
     if (op == "reset") {
-      std::string mode;
-      is >> max >> mode;
+      std::string mode, extra;
+      is >> max >> mode >> extra;
+      unwind_probe = extra == "unwind";
       teardown();
       next_ptr = 1;
       tr::Ev e("reset");
@@ -350,6 +352,32 @@ int main(int argc, char** argv)
       e.raw("own", own_projection(*sb, *ow));
     }
     out.put(e);
+    if (ow && unwind_probe && op == "oget") {
+      // an owner that lives in a scope left by an EXCEPTION: its destructor runs during stack
+      // unwinding and releases the token all the same
+      long long ut = 0;
+      try {
+        AP local(sb->get_app_pointer(ptr_of(next_ptr++)));
+        ut = (long long)local.UNSAFE_sandboxed(*sb);
+        throw std::logic_error("leave the scope by an exception");
+      } catch (const std::logic_error&) {
+      } catch (const std::runtime_error&) {
+        ut = 0; // (no free token: nothing to observe)
+      }
+      if (ut != 0) {
+        tr::Ev u("unwound");
+        u.num("t", ut);
+        try {
+          auto tp = sb->UNSAFE_accept_pointer(reinterpret_cast<int*>(sb->get_sandbox_impl()->base + ut));
+          int* p = sb->lookup_app_ptr(tp);
+          u.str("lookup", "ok").num("p", id_of(p));
+        } catch (const std::runtime_error&) {
+          u.str("lookup", "abort").num("p", 0);
+        }
+        u.raw("own", own_projection(*sb, *ow));
+        out.put(u);
+      }
+    }
     if (ow && other && xtoken != 0 && (op == "oget" || op == "lookupt" || op == "olookup")) {
       // the same token value presented to the OTHER sandbox
       long long t = xtoken;
